@@ -4,6 +4,8 @@ use vstd::prelude::*;
 macro_rules! format {
     // the one format string whose OUTPUT matters to a property (grpc-timeout writer): two Display arguments, concatenated
     ("{}{}", $a:expr, $b:expr $(,)?) => { crate::verif_format2(&$a, &$b) };
+    // ... and the reflection index's qualified names: two Display arguments joined by a dot
+    ("{}.{}", $a:expr, $b:expr $(,)?) => { crate::verif_format_dot(&$a, &$b) };
     ($fmt:literal $(, $a:expr)* $(,)?) => { crate::verif_format($fmt, ($(&$a,)*)) }
 }
 #[allow(unused_macros)]
